@@ -9,7 +9,7 @@ From Coq Require Import Reals ZArith Bool List Lra.
 From Flocq Require Import Core.Raux.
 From Coquelicot Require Rcomplements.
 From Interval Require Import Tactic.
-From ADV Require Import Base.Num C14.ER C14.Model C14.ProofsER.
+From ADV Require Import Base.Num C14.ER C14.Model C14.VModel C14.ProofsER.
 Import ListNotations.
 Open Scope R_scope.
 
@@ -116,7 +116,7 @@ Ltac use_near :=
 
 Ltac solve_case :=
   intros;
-  cbv beta iota zeta delta [eval with_d P cat_logpdf cat_logcdf cat_cdf nth];
+  cbv beta iota zeta delta [veval eval with_d P cat_logpdf cat_logcdf cat_cdf nth];
   rewrite ?Ztrunc_IZR, ?Ztrunc_half;
   cbv -[Rplus Rminus Rmult Rdiv Ropp Rinv Rabs exp ln Rpower sqrt PI IZR Rltb Rleb Reqb Rpos Rneg
         is_intb Zfloor Ztrunc
